@@ -58,7 +58,7 @@ def gen_cases(tier, seed):
             # a hole outline that is "second hand": the polygon (or what it was copied from) served as a terminal before,
             # which leaves Polygon.mesh == False on it. It is a hole of THIS device all the same.
             dev["holes"][-1]["mesh_flag"] = False
-        post = [None, "remesh", "translate_inplace", "translation_context", "roundtrip", "remesh", "smooth_separately", "translate_inplace"][k % 8]
+        post = [None, "remesh", "translate_inplace", "translation_context", "roundtrip", "translate_copy_inplace", "smooth_separately", "translate_inplace"][k % 8]
         if k % 3 == 0:
             # device away from the origin
             dev["offset"] = [float(rng.uniform(-30, 30)) * dev["layer"]["xi"], float(rng.uniform(-30, 30)) * dev["layer"]["xi"]]
@@ -73,6 +73,12 @@ def gen_cases(tier, seed):
             dev["mesh"]["min_points"] = None
         if fk == "box" and k % 4 == 3:
             dev["film"]["points"] = 4  # outline given by its corners; boundary sites are inserted by the mesher
+        if dev["terminals"] and fk == "box" and k % 4 == 1 and not dev["film"].get("angle"):
+            # a contact pad that wraps a CORNER of the film: the boundary it covers is bent
+            t = dev["terminals"][-1]
+            Wf, Hf = dev["film"]["w"], dev["film"]["h"]
+            t.update(center=[Wf / 2, Hf / 2], w=0.5 * min(Wf, Hf), h=0.6 * min(Wf, Hf))
+            t.pop("angle", None)
         if dev["terminals"] and k % 2 == 0:
             # a thick contact pad reaching into the film instead of a thin sliver
             t = dev["terminals"][0]
@@ -81,6 +87,12 @@ def gen_cases(tier, seed):
             else:
                 t["h"] = 0.35 * dev["film"]["h"]
         cases.append({"device": dev, "post": post, "seed": int(rng.integers(1 << 30)), "cost": {"small": 5, "medium": 15, "large": 60}[size]})
+    for j in range(1 if tier == "quick" else 4):
+        # a sub-micron device stated in METRES (coordinates ~1e-7), moved in place by a few nanometres (numbers ~1e-9)
+        dev = zoo.gen_device(rng, n_terminals=int([2, 0][j % 2]), n_holes=int(j % 2), probes=0, size="small", smooth=0)
+        dev = zoo.scale_device_spec(dev, 1e-7, "m")
+        W_ = dev["film"].get("w", 4e-7)
+        cases.append({"device": dev, "post": "tiny_move", "move": [0.012 * W_, -0.009 * W_], "seed": int(rng.integers(1 << 30)), "cost": 5})
     for j in range(2 if tier == "quick" else 6):
         # exactly structured tiny meshes: a rectangle given by its corners (and side midpoints), no refinement. Pairs of right
         # triangles share their circumcentre (cocircular sites, zero dual edge length): weakly Delaunay, cells still well defined
@@ -366,11 +378,27 @@ def run_case(spec):
             if sm is dev.mesh or np.shares_memory(np.asarray(sm.sites), np.asarray(dev.mesh.sites)):
                 cx.viol("smoothed_mesh_aliases_original", {})
             check_mesh(cx, dev, "after_smoothing_a_copy")
+        elif post == "translate_copy_inplace":
+            # Device.copy() shares the Mesh object with the original: moving the COPY in place leaves the original where it is
+            W = float(np.ptp(dev.film.points[:, 0]))
+            d2 = dev.copy()
+            d2.translate(dx=float(rng.uniform(0.5, 2)) * W, dy=float(rng.uniform(-2, -0.5)) * W, inplace=True)
+            cx.cnt("post_operation_checks")
+            check_mesh(cx, dev, "original_after_moving_a_copy")
+            check_mesh(cx, d2, "moved_copy")
+            with dev.copy().translation(0.7 * W, 0.3 * W):
+                check_mesh(cx, dev, "original_while_a_copy_is_inside_translation()")
         elif post == "translate_inplace":
             W = float(np.ptp(dev.film.points[:, 0]))
             dev.translate(dx=float(rng.uniform(-2, 2)) * W, dy=float(rng.uniform(-2, 2)) * W, inplace=True)
             cx.cnt("post_operation_checks")
             check_mesh(cx, dev, "after_translate_inplace")
+        elif post == "tiny_move":
+            dev.translate(dx=spec["move"][0], dy=spec["move"][1], inplace=True)
+            cx.cnt("post_operation_checks")
+            check_mesh(cx, dev, "after_tiny_move_in_metres")
+            with dev.translation(-0.5 * spec["move"][0], 0.7 * spec["move"][1]):
+                check_mesh(cx, dev, "inside_tiny_translation_context")
         elif post == "translation_context":
             W = float(np.ptp(dev.film.points[:, 0]))
             with dev.translation(float(rng.uniform(0.5, 2)) * W, float(rng.uniform(-2, -0.5)) * W):
